@@ -314,7 +314,9 @@ func loadCase(d *fDoc) (term string, fails []string) {
 }
 
 func keyCase(d *fDoc) (term string, fails []string) {
-	key, err := security.VerifC11LoadSigningKey(d.Kid, d.W.serverCfg())
+	var key []byte
+	var err error
+	d.W.withEnv(func() { key, err = security.VerifC11LoadSigningKey(d.Kid, d.W.serverCfg()) })
 	want, ok := d.W.refKey(d.Kid)
 	if ok != (err == nil) || (ok && !bytes.Equal(want, key)) {
 		fails = append(fails, "loadSigningKey differs from the reference key store")
@@ -420,7 +422,8 @@ func genFuncs(c *core.Ctx, kr *keyring) error {
 	}
 	// ---- loadSigningKey
 	{
-		worlds := []world{kr.w0, {Pool: nil, Named: kr.w0.Named}, {Pool: []byte{}, Named: map[string][]byte{}}, {Pool: []byte{0x11}, Named: kr.w0.Named}, kr.wLongPool}
+		worlds := []world{kr.w0, {Pool: nil, Named: kr.w0.Named}, {Pool: []byte{}, Named: map[string][]byte{}}, {Pool: []byte{0x11}, Named: kr.w0.Named}, kr.wLongPool,
+			{Pool: kr.w0.Pool, Named: kr.w0.Named, EnvPaths: true}, {Pool: nil, Named: kr.w0.Named, EnvPaths: true}}
 		for wi := range worlds {
 			kids := []string{"POOL", "k1", "k2", "empty", "nokey", "", "../keys/k1", "a/b", "..", "k1..", "pool", "POOL "}
 			if wi == 0 {
